@@ -256,7 +256,7 @@ Proof.
 Qed.
 
 Lemma bl_loop_good : forall fuel st bs Sx, bytes bs -> BInv st -> (length bs < fuel)%nat -> 0 <= Sx ->
-  (bframeless st = true -> frame_S 192 fuel bs <= Sx) -> (bframeless st = false -> bframeS st <= Sx) ->
+  (bframeless st = true -> frame_S fuel bs <= Sx) -> (bframeless st = false -> bframeS st <= Sx) ->
   aloopP Sx 64 bs (bl_loop fuel st bs).
 Proof.
   induction fuel as [|k IH]; intros st bs Sx Hb HI Hf HS H1 H2; [lia|].
@@ -268,7 +268,8 @@ Proof.
   assert (Hzl : zlen r <= zlen bs) by (unfold zlen; lia).
   pose proof (zlen_nonneg bs) as Hz0.
   destruct (m =? 192) eqn:E192.
-  { destruct (bframeless st) eqn:Efl.
+  { assert (Hs : is_sof m = true) by (apply Z.eqb_eq in E192; subst m; reflexivity). rewrite Hs in H1.
+    destruct (bframeless st) eqn:Efl.
     - specialize (H1 eq_refl).
       eapply aloopP_bind; [apply bl_sof_good; auto|nia|].
       intros [st' rest] ((P1 & P2 & P3 & P4) & F0 & F1 & F2). cbn [fst snd] in *.
@@ -307,6 +308,7 @@ Proof.
     unfold bframeS in *. rewrite A1, A2, A3. nia. }
   destruct (m =? 217) eqn:E217.
   { eapply aloopP_bind; [apply bl_out_alloc_good; exact HI|nia|intros _ _; apply aloopP_ret]. }
+  revert H1. destruct (is_sof m) eqn:ESOF; intros H1; [apply aloopP_err|].
   cbn [orb] in H1.
   destruct (has_length m) eqn:EL.
   { eapply aloopP_bind; [eapply good_weaken; [apply good_read_segment'; exact Hr|apply Z.le_refl|intros a Ha; exact Ha]|nia|].
@@ -317,13 +319,13 @@ Proof.
   apply IH; auto. lia.
 Qed.
 
-Lemma bl_decode_aloopP : forall bs, bytes bs -> aloopP (frame_declared 192 bs) 64 bs (bl_decode (fuel_of bs) bs).
+Lemma bl_decode_aloopP : forall bs, bytes bs -> aloopP (frame_declared bs) 64 bs (bl_decode (fuel_of bs) bs).
 Proof.
   intros bs Hb. unfold bl_decode, frame_declared.
   destruct (read_marker bs) as [[m r]| | |] eqn:EM; try apply aloopP_err.
   destruct (read_marker_ok _ _ _ EM) as [Hl Hbb]. destruct (Hbb Hb) as [Hr Hm].
   destruct (m =? 216); [|apply aloopP_err].
-  eapply aloopP_mono with (S' := frame_S 192 (fuel_of bs) r) (bs' := r); [lia|lia|unfold zlen; lia|].
+  eapply aloopP_mono with (S' := frame_S (fuel_of bs) r) (bs' := r); [lia|lia|unfold zlen; lia|].
   apply bl_loop_good; auto.
   - apply BInv0.
   - unfold fuel_of; lia.
@@ -341,5 +343,5 @@ Theorem bl_decode_fuel : forall bs, bytes bs -> fst (bl_decode (fuel_of bs) bs) 
 Proof. intros bs Hb. apply (bl_decode_aloopP bs Hb). Qed.
 (* block buffers are requested while parsing SOF0: at most 63*w*h + 961 bytes per component *)
 Theorem bl_decode_alloc : forall bs, bytes bs ->
-  Forall (fun a => a <= 64 * frame_declared 192 bs + 2 * zlen bs + 65536) (snd (bl_decode (fuel_of bs) bs)).
+  Forall (fun a => a <= 64 * frame_declared bs + 2 * zlen bs + 65536) (snd (bl_decode (fuel_of bs) bs)).
 Proof. intros bs Hb. apply (bl_decode_aloopP bs Hb). Qed.
